@@ -695,6 +695,8 @@ def run(ctx, tier):
     # the built-in check (which strict mode runs inside every commit) accounts for the whole run of every page kind, or it rejects well-formed trees
     import c16
     results += c16.check_counts_runs(ctx, rule='C05.check-counts-runs')
+    # the library's own check accepts every file the library writes: it refuses at no more sites than the pinned one
+    results += c16.check_refusals(ctx, rule='C05.check-refusals')
     results += c16.block_extent(ctx, rule='C05.block-extent')
     import c07
     results += c07.position_from_search(ctx, rule='C05.position-from-search')
